@@ -9,7 +9,7 @@ def make_cases(tier, profile):
     J = ['no_panic', 'inv', 'nick']
     spec = dict(sym_caps=False, sym_max_joins=False, sym_topic=False, sym_key=False, sym_limit=False, sym_lists=False, sym_users=True,
                 plain_chans=['&y'] if tier == 'quick' else [], nicks=['alice', 'bob', 'carol'])
-    news = ['zed', 'alice', 'bob', '#bad', 'a.b', 'x:y', 'Alice']
+    news = ['zed', 'alice', 'bob', '#bad', 'a.b', 'x:y', 'Alice', '.zed', ',zed', '::zed']
     if tier != 'quick': news += ['carol', 'zed,', '&n', 'é']
     cases = []
     for n in news:
